@@ -214,6 +214,8 @@ def check_C12(run):
     # ---- L3: doer model stream
     fsx_stream(run, 250 if not thorough else 4000)
     general_l2(run)
+    from .props import terminal_failed_delete
+    terminal_failed_delete(run)
     # ---- L2
     scs = corpus_l2('C12') + gen_mixed(rng, 1200 if not thorough else 12000, faults=False)
     for _ in range(400 if not thorough else 4000):
